@@ -134,6 +134,22 @@ def run(ctx) -> int:
         if tok.s_of(unsx(a) or []) != escapeHtml(s) or tok.s_of(unsx(b) or []) != escapeHtml(s):
             disagreements.append({"escapeHtml": s})
 
+    # whole pipeline under html-off configurations (the end-to-end theorem C04_render_safe is about this model)
+    pcases = []
+    prng = rng_for("C04", seed, "pipeline")
+    for k in range(300 if tier == "quick" else 8000):
+        cfg = dict(html_off_config(prng), ruler2_off=[])
+        if k % 5 == 0:
+            cfg["enable"] = list(set(cfg["enable"]) | {"html_inline", "html_block"})
+            cfg["disable"] = [x for x in cfg["disable"] if x not in ("html_inline", "html_block")]
+        src = slot_doc(prng) if k % 2 else docs.random_doc(prng)
+        pcases.append((cfg, "render" if k % 4 else "renderInline", src, None))
+    import pipecheck
+    n_pipe, pdis, pkn, pkbad, plines = pipecheck.correspond(pcases, "c04p", kernel_sample=10)
+    disagreements += pdis
+    kbad = list(kbad) + list(pkbad)
+    kn += pkn
+
     def search():
         srng = rng_for("C04", seed, "search")
         for _ in range(4000 if tier == "quick" else 80000):
@@ -146,11 +162,12 @@ def run(ctx) -> int:
 
     conclude(rep, proofs, direct, "unsafe-html", disagreements, kbad, search,
              "RendererHTML.render / escapeHtml: model and implementation differ")
-    cov = proof_cov("C04", proofs, ["that the parser pushes no html_block/html_inline token when options.html is falsy, and only tags from its fixed vocabulary, is checked on the implementation's output by the strict HTML checker (parser-side theorem pending the block/inline model)"])
+    cov = proof_cov("C04", proofs, ["C04_render_safe is about the pipeline model: its tie to the code is the whole-pipeline correspondence under html-off configurations of this run; balanced inline pairs in the output are checked on the implementation by the strict HTML checker (not a theorem)"])
     cov.update({
-        "evaluations": len(cases) + n_dir + len(strs), "distinct_nontrivial": len(set(cases)) + len(set(strs)),
+        "evaluations": len(cases) + n_dir + len(strs) + n_pipe, "distinct_nontrivial": len(set(cases)) + len(set(strs)) + len(set(plines)),
+        "pipeline_cases": n_pipe,
         "rule": "html-off configurations (presets x random rule subsets x renderer options; html switched off by constructor, item and attribute assignment; html rules force-enabled) x documents placing & < > \" ' ` and entity spellings in every data slot (alt, title, href, fence info/lang, code, cell, heading, reference, autolink) or generated documents; streams rendered by implementation and model; output of render and renderInline checked by a strict HTML grammar",
-        "samples": inputs[:2], "traces_validated_against_impl": len(cases), "html_checked": n_dir,
+        "samples": inputs[:2], "traces_validated_against_impl": len(cases) + n_pipe, "html_checked": n_dir,
         "in_kernel_cases": kn, "in_kernel_mismatches": len(kbad), "disagreements": len(disagreements),
     })
     return rep.finish("proof", cov, ["default HTML renderer, no highlight callback (as the property states)"])
